@@ -508,9 +508,11 @@ pub mod stdlib {
                 _source: &str,
                 parameters: &mut dyn Parameters,
             ) -> Result<Value, ExecutionError> {
-                let mut result = 0;
+                let mut result: u32 = 0;
                 while let Ok(parameter) = parameters.param() {
-                    result += parameter.as_integer()?;
+                    result = result.checked_add(parameter.as_integer()?).ok_or_else(|| {
+                        ExecutionError::FunctionFailed("plus".into(), format!("integer overflow"))
+                    })?;
                 }
                 Ok(Value::Integer(result))
             }
